@@ -4,6 +4,7 @@ import (
 	"bytes"
 	"errors"
 	"fmt"
+	"os"
 	"testing"
 
 	"pgregory.net/rapid"
@@ -23,6 +24,9 @@ type c12Case struct {
 	// Sign: S/MIME-sign the message (ecdsa). The outer boundary and the signature change per render,
 	// so offsets closer than 64 bytes to the end of the reference output are not tried.
 	Sign bool `json:"sign,omitempty"`
+	// DeleteFiles: on-disk files attached with AttachFile/EmbedFile vanish before the render: the
+	// library's own file producer fails before emitting anything.
+	DeleteFiles bool `json:"delete_files,omitempty"`
 }
 
 var errSink = errors.New("verif: injected sink failure")
@@ -65,11 +69,21 @@ func c12Render(c *c12Case, sink *faultSink) (n int64, err error, panicked interf
 			return 0, nil, fmt.Sprintf("BUILD:%v", serr)
 		}
 	}
+	if c.DeleteFiles && !c.SecondRender {
+		for _, p := range b.FilePaths {
+			_ = os.Remove(p)
+		}
+	}
 	if c.SecondRender {
 		// a clean first render; producers armed by invocation count are not consumed by it
 		// because the C12 generator arms faults with FailOnCall=0 only when SecondRender is off.
 		var first bytes.Buffer
 		_, _ = b.Msg.WriteTo(&first)
+		if c.DeleteFiles {
+			for _, p := range b.FilePaths {
+				_ = os.Remove(p)
+			}
+		}
 	}
 	defer func() {
 		if r := recover(); r != nil {
@@ -110,6 +124,13 @@ func c12Run(c c12Case) []*core.Violation {
 		return nil
 	}
 	prodFault := c12HasProducerFault(&c.Spec)
+	if c.DeleteFiles {
+		for _, f := range append(append([]gen.FileSpec{}, c.Spec.Embeds...), c.Spec.Attachments...) {
+			if f.Source == "file" && len(f.Prod.Chunks) == 0 && !f.Prod.Fail {
+				prodFault = true
+			}
+		}
+	}
 	shape := c.Spec.ShapeKey()
 	if pan != nil {
 		return []*core.Violation{core.V("panic", "WriteTo panicked on a healthy sink (producer fault=%v): %v", prodFault, pan)}
@@ -220,6 +241,17 @@ func c12Gen(t *rapid.T) c12Case {
 		p.Fail = true
 		p.FailAfter = rapid.IntRange(0, len(content)).Draw(t, "failafter")
 		c.SecondRender = false
+	} else if rapid.IntRange(0, 3).Draw(t, "deletefiles") == 0 {
+		for i := range c.Spec.Attachments {
+			if c.Spec.Attachments[i].Source == "file" {
+				c.DeleteFiles = true
+			}
+		}
+		for i := range c.Spec.Embeds {
+			if c.Spec.Embeds[i].Source == "file" {
+				c.DeleteFiles = true
+			}
+		}
 	}
 	return c
 }
@@ -228,7 +260,7 @@ func TestC12(t *testing.T) {
 	rec := core.Rec("C12")
 	rec.Rule = "message programs drawn by rapid (0..3 parts, 0..2 embeds, 0..2 attachments, 3 encodings, all file sources, contents <= 90 bytes); " +
 		"for each program EVERY sink offset k in [0,len(output)) is tried in two sink modes (partial accept / whole-write refusal), on the first or the second render; " +
-		"one program in three instead has one producer failing after 0..len bytes; one program in six is S/MIME-signed (ECDSA; offsets up to 64 bytes before the end, because boundary and signature change per render). Non-trivial: every faulty render; distinct by (shape incl. per-leaf encoding and content classes, decile of k for multipart messages, sink mode, render index)."
+		"one program in three instead has one producer failing after 0..len bytes, or its on-disk attachment files deleted before (or between) renders; one program in six is S/MIME-signed (ECDSA; offsets up to 64 bytes before the end, because boundary and signature change per render). Non-trivial: every faulty render; distinct by (shape incl. per-leaf encoding and content classes, decile of k for multipart messages, sink mode, render index)."
 	rec.Assumptions = []string{"sinks obey the io.Writer contract (n<len(p) only together with an error) and keep failing after the first failure"}
 	core.Prop[c12Case]{ID: "C12", Test: "TestC12", Gen: c12Gen, Run: c12Run}.Check(t)
 }
